@@ -77,8 +77,13 @@ func TestMain(m *testing.M) {
 		ProblemLogger = log.New(io.Discard, "", 0)
 		UpdateLogger = log.New(io.Discard, "", 0)
 	}
-	if os.Getenv("VERIF_CHILD") == "crash" {
+	switch os.Getenv("VERIF_CHILD") {
+	case "crash":
 		vCrashChild() // C16: the re-executed binary that is killed during a configuration save
+	case "resave":
+		vResaveChild() // C16: the run after the killed one
+	case "restore":
+		vRestoreChild() // C16: a fresh process restoring trigger settings from the file
 	}
 	// stdout is noisy (fmt.Printf in the code under test) but goes to the shard's log file.
 	prop := os.Getenv("VERIF_PROP")
